@@ -31,18 +31,6 @@ thread_local! {
     static STATE: RefCell<AnchorState> = RefCell::new(AnchorState::default());
 }
 
-pub(crate) fn reset() {
-    STATE.with(|state| {
-        let mut s = state.borrow_mut();
-        s.stack.clear();
-        s.store.rc.clear();
-        s.store.arc.clear();
-        s.store.rc_recursive.clear();
-        s.store.arc_recursive.clear();
-        s.in_progress.clear();
-    });
-}
-
 pub(crate) fn with_anchor_context<R>(
     kind: AnchorKind,
     anchor: Option<usize>,
@@ -245,15 +233,24 @@ pub(crate) fn get_arc_recursive<T: Any + Send + Sync>(id: usize) -> Result<Optio
 }
 
 pub(crate) fn with_document_scope<R>(f: impl FnOnce() -> R) -> R {
-    reset();
-    struct ResetGuard;
-    impl Drop for ResetGuard {
+    // A document starts with an empty anchor state and with no fallback error location, and
+    // leaves none behind. The enclosing state is saved and restored rather than wiped: a user
+    // `Deserialize` implementation may call back into this crate while an outer document is
+    // still being deserialized on the same thread, and must neither see nor destroy the outer
+    // document's anchor identities, in-progress marks or fallback location.
+    let saved = STATE.with(|state| std::mem::take(&mut *state.borrow_mut()));
+    let fallback_guard = crate::de_error::MissingFieldLocationGuard::cleared();
+    struct RestoreGuard(Option<AnchorState>);
+    impl Drop for RestoreGuard {
         fn drop(&mut self) {
-            reset();
+            if let Some(prev) = self.0.take() {
+                STATE.with(|state| *state.borrow_mut() = prev);
+            }
         }
     }
-    let guard = ResetGuard;
+    let guard = RestoreGuard(Some(saved));
     let result = f();
     drop(guard);
+    drop(fallback_guard);
     result
 }
